@@ -103,7 +103,16 @@ def run(prop, tier, seed, replay):
                 lo = rng.choice([0.0, 0.01, 0.1, 0.25])
                 widths = [rng.choice([0.05, 0.1, 0.125, 0.3]) for _ in range(B)]
                 edges = np.concatenate([[lo], lo + np.cumsum(widths)])
-                closed = ["left", "right"][ci % 2]
+                if ci % 4 == 3:
+                    # stratum: EQUAL-WIDTH bins whose edges are decimal literals / an arithmetic progression — not the
+                    # numbers np.linspace would regenerate from the end points; most redshifts sit on the edges
+                    B = rng.choice([3, 5, 9])
+                    if (ci // 4) % 2 == 0:
+                        edges = np.array([float(f"{0.1 * (k + 1):.1f}") for k in range(B + 1)])
+                    else:
+                        edges = 0.1 + 0.1 * np.arange(B + 1)
+                    ck.count("stratum=equal-width-literal-edges")
+                closed = ["left", "right"][(ci // 8) % 2 if ci % 4 == 3 else ci % 2]
                 P = rng.choice([1, 2, 3, 4])
                 weighted = (ci // 2) % 2 == 0
                 n = rng.choice([1, 3, 8, 20, 40])
